@@ -527,6 +527,20 @@ func TestMatrix(t *testing.T) {
 		{"oneof-alone", &j5sgen.Decl{Oneof: &j5sgen.Oneof{Name: "Pick", Options: []*j5sgen.Field{{Name: "a", Type: &j5sgen.Type{Kind: "object", InlineObject: &j5sgen.Object{Fields: []*j5sgen.Field{str()}}}}}}}},
 		{"object-empty", &j5sgen.Decl{Object: &j5sgen.Object{Name: "Empty"}}},
 		{"object-nested", &j5sgen.Decl{Object: &j5sgen.Object{Name: "Outer", Nested: []*j5sgen.Object{{Name: "Inner", Fields: []*j5sgen.Field{str()}}}}}},
+		// names: an inline type named like a message that encloses it (protobuf scoping)
+		{"name-inline-like-parent", &j5sgen.Decl{Object: &j5sgen.Object{Name: "Thing", Fields: []*j5sgen.Field{{Name: "thing", Type: &j5sgen.Type{Kind: "object", InlineObject: &j5sgen.Object{Fields: []*j5sgen.Field{str()}}}}}}}},
+		{"name-inline-like-parent+sibling", &j5sgen.Decl{Object: &j5sgen.Object{Name: "Thing", Fields: []*j5sgen.Field{
+			{Name: "other", Type: &j5sgen.Type{Kind: "object", InlineObject: &j5sgen.Object{Fields: []*j5sgen.Field{str()}}}},
+			{Name: "thing", Type: &j5sgen.Type{Kind: "enum", InlineEnum: &j5sgen.Enum{Options: []*j5sgen.EnumOption{{Name: "A"}}}}},
+			{Name: "last", Type: &j5sgen.Type{Kind: "oneof", InlineOneof: &j5sgen.Oneof{Options: []*j5sgen.Field{{Name: "a", Type: &j5sgen.Type{Kind: "object", InlineObject: &j5sgen.Object{Fields: []*j5sgen.Field{str()}}}}}}}},
+		}}}},
+		{"name-inline-like-grandparent", &j5sgen.Decl{Object: &j5sgen.Object{Name: "Thing", Fields: []*j5sgen.Field{{Name: "level", Type: &j5sgen.Type{Kind: "object", InlineObject: &j5sgen.Object{Fields: []*j5sgen.Field{
+			{Name: "thing", Type: &j5sgen.Type{Kind: "array", Items: &j5sgen.Type{Kind: "object", InlineObject: &j5sgen.Object{Fields: []*j5sgen.Field{str()}}}}},
+			{Name: "level", Type: &j5sgen.Type{Kind: "object", InlineObject: &j5sgen.Object{Fields: []*j5sgen.Field{str()}}}},
+		}}}}}}}},
+		{"name-inline-like-request", &j5sgen.Decl{Service: &j5sgen.Service{Name: "Things", Methods: []*j5sgen.Method{{Name: "MakeThing", HTTPMethod: "POST", HTTPPath: "/thing",
+			Request:  []*j5sgen.Field{{Name: "makeThingRequest", Type: &j5sgen.Type{Kind: "object", InlineObject: &j5sgen.Object{Fields: []*j5sgen.Field{str()}}}}},
+			Response: []*j5sgen.Field{{Name: "makeThingResponse", Type: &j5sgen.Type{Kind: "enum", InlineEnum: &j5sgen.Enum{Options: []*j5sgen.EnumOption{{Name: "A"}}}}}}}}}}},
 		{"service-get", &j5sgen.Decl{Service: &j5sgen.Service{Name: "Things", BasePath: "/things/v1", Methods: []*j5sgen.Method{{Name: "GetThing", HTTPMethod: "GET", HTTPPath: "/thing/:name", Request: []*j5sgen.Field{str()}, Response: []*j5sgen.Field{str()}}}}}},
 		{"service-post", &j5sgen.Decl{Service: &j5sgen.Service{Name: "Things", Methods: []*j5sgen.Method{{Name: "MakeThing", HTTPMethod: "POST", HTTPPath: "/thing", Request: []*j5sgen.Field{str()}, Response: nil}}}}},
 		{"service-no-response", &j5sgen.Decl{Service: &j5sgen.Service{Name: "Things", Methods: []*j5sgen.Method{{Name: "Raw", HTTPMethod: "GET", HTTPPath: "/raw", NoResponse: true}}}}},
